@@ -97,4 +97,49 @@ ConcatC(Ss) ==
   ELSE LET r == ConcatFrom(Ss[1].res, Ss[1].feats, Tail(Ss))
        IN WithRes(Ss[1], r[1], r[2])
 
+(***************************************************************************)
+(* gts.Repair (feature.go 22-75), as the code is: group by key+qualifiers, *)
+(* sort the group's locations (sort.Sort: insertion sort for <= 12         *)
+(* elements), push them through LocationList.Push (force only for source), *)
+(* rewrite the group only if that made it shorter.                         *)
+(***************************************************************************)
+RECURSIVE InsSortStep(_, _)
+\* move element at index i down while Less(it, previous)
+InsSortStep(xs, j) ==
+  IF j > 1 /\ Less(xs[j], xs[j - 1])
+  THEN InsSortStep([xs EXCEPT ![j] = xs[j - 1], ![j - 1] = xs[j]], j - 1)
+  ELSE xs
+RECURSIVE InsSort(_, _)
+InsSort(xs, i) == IF i > Len(xs) THEN xs ELSE InsSort(InsSortStep(xs, i), i + 1)
+SortLocs(xs) == InsSort(xs, 2)
+
+GroupKey(f) == <<f.key, f.props>>
+
+RepairC(S) ==
+  LET ff == S.feats
+      n == Len(ff)
+      keys == {GroupKey(ff[j]) : j \in 1..n}
+      idx(k) == SelectSeq([j \in 1..n |-> j], LAMBDA j : GroupKey(ff[j]) = k)
+      merged(k) == PushAll(<<>>, SortLocs([q \in 1..Len(idx(k)) |-> ff[idx(k)[q]].loc]), k[1] = "source")
+      \* new location of feature j, or "drop"
+      newLoc(j) ==
+        LET k == GroupKey(ff[j])
+            ix == idx(k)
+            ml == merged(k)
+            pos == CHOOSE q \in 1..Len(ix) : ix[q] = j
+        IN IF Len(ml) < Len(ix)
+           THEN (IF pos <= Len(ml) THEN ml[pos] ELSE [k |-> "drop"])
+           ELSE ff[j].loc
+      kept == SelectSeq([j \in 1..n |-> j], LAMBDA j : newLoc(j).k # "drop")
+  IN WithRes(S, S.res, [q \in 1..Len(kept) |-> RawFeat(ff[kept[q]], newLoc(kept[q]))])
+
+\* input predicates of the Repair deviations, for the class group of label lab
+RECURSIVE HasJoin(_)
+HasJoin(t) == t.k = "jn" \/ (t.k = "cp" /\ HasJoin(t.x))
+GroupOf(S, lab) ==
+  LET fs == SelectSeq(S.feats, LAMBDA f : f.label = lab)
+  IN IF fs = <<>> THEN <<>> ELSE SelectSeq(S.feats, LAMBDA f : GroupKey(f) = GroupKey(fs[1]))
+RepairCpGroup(S, lab) == Cardinality({j \in 1..Len(GroupOf(S, lab)) : GroupOf(S, lab)[j].loc.k = "cp"}) >= 2
+RepairJnGroup(S, lab) == Len(GroupOf(S, lab)) >= 2 /\ \E j \in 1..Len(GroupOf(S, lab)) : GroupOf(S, lab)[j].loc.k = "jn"
+
 =============================================================================
